@@ -249,7 +249,7 @@ func (node *BinaryFloat64ExprNode) Accept(visitor Visitor) {
 }
 
 func (node *BinaryFloat64ExprNode) GetType() NodeType {
-	return NodeTypeFloat64
+	return NodeTypeBool
 }
 
 func (node *BinaryFloat64ExprNode) EvalBool(s Symbols) bool {
